@@ -1,6 +1,7 @@
 //! Ledger world: a single simulated node with many clients (DESIGN section 3.1).
 
 pub mod accessctl;
+pub mod auth;
 pub mod c07;
 pub mod c44;
 pub mod deposits;
